@@ -186,6 +186,15 @@ def jobs(tier, seed):
             js.append(dict(kind='overrun-first', items=[('canon', fr, b),
                                                         ('canon', 'cl', 'text')],
                            ka=True, il=False, tier=tier))
+    # bodies longer than the 4096-byte read size: every body loop runs several times
+    for b in A.BIG_BODIES:
+        for fr in ('cl', 'chunked1', 'chunked_ext', 'close', 'overrun', 'connclose'):
+            js.append(dict(kind='light', items=[('canon', fr, b)], ka=True, il=False,
+                           tier=tier))
+        js.append(dict(kind='light', items=[('canon', 'cl', b), ('canon', 'chunked1', 'text')],
+                       ka=True, il=False, tier=tier))
+        js.append(dict(kind='light', items=[('lf', 'chunked_ext', b), ('canon', 'cl', b)],
+                       ka=True, il=False, tier=tier))
     js.append(dict(kind='light', items=[('biglf', 'cl', 'text')], ka=True, il=False, tier=tier))
     js.append(dict(kind='light', items=[('biglf', 'chunked_ext', 'text'), ('canon', 'cl', 'text')],
                    ka=True, il=False, tier=tier))
@@ -237,8 +246,13 @@ def run_job(job):
         res['distinct'].add(h64((tag, 'overrun-first')))
         res['samples'].append(dict(stream=tag, bytes=total, mode='surplus then next exchange'))
     elif job['kind'] == 'light':
-        for cuts in ([], list(range(1, total)), list(range(1, total, 7)),
-                     [total // 3, 2 * total // 3], [4096], [4095, 4097]):
+        hdr = streams[0].index(b'\n\n') + 2 if b'\r\n\r\n' not in streams[0] else \
+            streams[0].index(b'\r\n\r\n') + 4
+        around = [[base + c + d] for base in (0, hdr) for c in (4096, 8192) for d in (-1, 0, 1)
+                  if 0 < base + c + d < total]
+        for cuts in [[], list(range(1, total)), list(range(1, total, 7)),
+                     [total // 3, 2 * total // 3], [4095, 4097],
+                     list(range(1000, total, 1000)), list(range(4096, total, 4096))] + around:
             plan = dict(cuts=cuts)
             obs, _ = httpharn.run_http(spec, plan)
             res['evaluations'] += 1
@@ -250,7 +264,7 @@ def run_job(job):
             if v and len(res['violations']) < 2:
                 record(v, plan, obs, spec)
         res['distinct'].add(h64((tag, 'light')))
-        res['samples'].append(dict(stream=tag, bytes=total, mode='light (6 plans)'))
+        res['samples'].append(dict(stream=tag, bytes=total, mode='light (7 plans + cuts around 4096/8192)'))
     elif job['kind'] == 'cuts':
         quick = job['tier'] == 'quick'
         maxc = 2 if total <= (110 if quick else 260) else 1
